@@ -124,6 +124,12 @@ theorem deal_spec_abstract {F : Type} [VOps F] {B : Nat} (hf : DealFact F B) {σ
 
 example (B : ℕ) : DealFact ℝ B := fieldDealFact B
 
+/-- instantiated at the executable model (`Float`) on the 32-bit generator (either kind, any state): `esl_rnd_Deal(m, n)` for
+    `m ≤ n ≤ 2^31` is `m` strictly increasing values in `0..n-1`, given only `DealFact Float (2^31)` (evaluated on binary64 each run) -/
+theorem deal_spec_binary64 (hf : DealFact Float (2^31)) (r : Rng) (m n : Nat) (h : m ≤ n) (hn : n ≤ 2^31) :
+    let out := (dealF (F := Float) Rng.next m n r).1
+    out.length = m ∧ (∀ a ∈ out, a < n) ∧ out.Pairwise (· < ·) := deal_spec_abstract hf Rng.next m n h hn r
+
 /-- a categorical choice returns an index of non-zero probability — for any floating type in which `x + 0 = x`
     and for any roll that is not below `0/norm` (true of `esl_random ∈ [0,1)`); the loop mirrors `esl_rnd_DChoose` -/
 theorem dchoose_nonzero {F : Type} [FOps F] (hadd : ∀ x : F, FOps.add x FOps.zero = x) (roll : F) (p : List F)
@@ -206,6 +212,24 @@ theorem rand64_deal_spec_abstract {F : Type} [VOps F] {B : Int} (ff : FloatFacts
     (out.length : Int) = m ∧ out.Pairwise (· < ·) ∧ ∀ a ∈ out, 0 ≤ a ∧ a < n := by
   obtain ⟨h1, h2, h3⟩ := deal64Core_abs ff next fuel m n hm hmn hnB s out v s' h
   exact ⟨h1, h2, fun a ha => ⟨(h3 a ha).1, by have := (h3 a ha).2; omega⟩⟩
+
+/-- instantiated at the EXECUTABLE model the driver runs against the C code (`Float` = binary64, libm `exp`/`log`): whatever
+    `esl_rand64_Deal`'s model returns for `1 ≤ m ≤ n ≤ 2^53` on the MT19937-64 generator in any state is `m` strictly increasing
+    values in `[0,n)` — the only thing not proved in Lean is `FloatFacts Float (2^53)` itself (`Float` is opaque to the kernel);
+    that list is what the plug-in evaluates on binary64 at every run -/
+theorem rand64_deal_spec_binary64 (ff : FloatFacts Float (2^53)) (r : Rng64) (fuel m n : Nat) (hm : 1 ≤ m) (hmn : m ≤ n)
+    (hnB : n ≤ 2^53) (out : List Int) (r' : Rng64) (h : r.deal64 m n fuel = some (out, r')) :
+    (out.length : Int) = m ∧ out.Pairwise (· < ·) ∧ ∀ a ∈ out, 0 ≤ a ∧ a < n := by
+  unfold Rng64.deal64 at h
+  cases hc : deal64Core (F := Float) Rng64.next fuel (m : Int) (n : Int) r with
+  | none => rw [hc] at h; cases h
+  | some q =>
+    obtain ⟨o, v, r2⟩ := q
+    rw [hc] at h
+    simp only [Option.some.injEq, Prod.mk.injEq] at h
+    obtain ⟨h1, _⟩ := h
+    subst h1
+    exact rand64_deal_spec_abstract ff Rng64.next fuel m n (by omega) (by omega) (by exact_mod_cast hnB) r o v r2 hc
 
 /-- the code BEFORE fix ba43348 (final step without the clamp), on any carrier: when the first `Vprime` is a value `v` with
     `floor(n·v) = n` — in binary64 that is `v = 1.0`, which the acceptance test `Vprime <= 1.` lets through — the deal of 1
